@@ -12,7 +12,11 @@ RULE = ("random alias graphs (chains, negations, several aliases per class) buil
         "AliasRelation; random operation sequences (set/get/del/contains/len/keys/get-default/"
         "setdefault/update/items) on the real AliasDict with int, (min,max)-tuple and list values, "
         "both signed_values modes; a case is non-trivial when a negated alias of a multi-member "
-        "class is read or written; distinct = distinct (relation, op-kind sequence) shapes")
+        "class is read or written; distinct = distinct (relation, op-kind sequence) shapes.  Consumers: "
+        "pymoca-compiled models with plain / negated / chained aliases of a bounded, scaled state; bounds(), "
+        "variable_nominal(), variable_is_discrete() and StateGoal (function_range, function_nominal, function_key, "
+        "function) asked through every name and compared with the class-map rule (pairs swap and negate, "
+        "magnitudes stay positive)")
 MODELLED = "src/rtctools/_internal/alias_tools.py AliasDict (all methods except __repr__/values)"
 NOT_MODELLED = "pymoca AliasRelation (third party; its canonical_signed table is an input, sanity-checked by an independent union-find), OrderedSet"
 ASSUMPTIONS = ["keys are strings numbered by the harness; values are integers so comparison is exact"]
@@ -387,3 +391,131 @@ def run(ctx):
         small = core.shrink(bad[0][0], cand, mismatch_batch)
         rs = evaluate(ctx, [small], "min")
         judge(ctx, rs + bad[:3])
+
+
+# ---- consumers of the alias dictionaries: a goal on an alias is the goal on the variable ------------------
+def consumer_case(spec):
+    """runs in a worker: a pymoca-compiled model with plain / negated / chained aliases; StateGoals and the
+    problem's own accessors asked through every name"""
+    import logging
+    import shutil
+    import tempfile
+    import warnings
+    fd = os.open(os.devnull, os.O_WRONLY)
+    os.dup2(fd, 1)
+    os.dup2(fd, 2)
+    warnings.filterwarnings("ignore")
+    logging.disable(logging.CRITICAL)
+    import casadi as ca
+    from rtctools.optimization.collocated_integrated_optimization_problem import CollocatedIntegratedOptimizationProblem
+    from rtctools.optimization.goal_programming_mixin import GoalProgrammingMixin, StateGoal
+    from rtctools.optimization.modelica_mixin import ModelicaMixin
+    base = tempfile.mkdtemp(prefix="verif_c13_")
+    try:
+        lines = ["model A", "  Real x(min=%r, max=%r, nominal=%r, start=0.0, fixed=true);" % (spec["lo"], spec["hi"], spec["nominal"])]
+        for nm, _ in spec["aliases"]:
+            lines.append("  Real %s;" % nm)
+        lines += ["  input Real u(fixed=false, min=-1.0, max=1.0);", "equation", "  der(x) = u;"]
+        for nm, (target, sign) in spec["aliases"]:
+            lines.append("  %s = %s%s;" % (nm, "-" if sign < 0 else "", target))
+        lines.append("end A;")
+        with open(os.path.join(base, "A.mo"), "w") as fh:
+            fh.write("\n".join(lines) + "\n")
+
+        class P(GoalProgrammingMixin, ModelicaMixin, CollocatedIntegratedOptimizationProblem):
+            def times(self, variable=None):
+                import numpy as np
+                return np.array([0.0, 1.0, 2.0])
+
+            def compiler_options(self):
+                o = super().compiler_options()
+                o["cache"] = False
+                return o
+
+        p = P(model_folder=base, model_name="A")
+        out = {}
+        for nm in ["x"] + [a for a, _ in spec["aliases"]]:
+            class G(StateGoal):
+                state = nm
+                priority = 1
+                target_min = spec["tmin"][nm]
+                target_max = spec["tmax"][nm]
+            o = {}
+            try:
+                g = G(p)
+                o["range"] = [float(g.function_range[0]), float(g.function_range[1])]
+                o["nominal"] = float(g.function_nominal)
+                o["key"] = g.function_key
+                xs = p.dae_variables["states"][0]
+                f = ca.Function("f", [xs], [g.function(p, 0)])
+                o["at_one"] = float(f(1.0))
+            except Exception as e:  # noqa: BLE001
+                o["error"] = "%s: %s" % (type(e).__name__, str(e)[:120])
+            try:
+                b = p.bounds()[nm]
+                o["bounds"] = [float(b[0]), float(b[1])]
+                o["var_nominal"] = float(p.variable_nominal(nm))
+                o["discrete"] = bool(p.variable_is_discrete(nm))
+            except Exception as e:  # noqa: BLE001
+                o["error2"] = "%s: %s" % (type(e).__name__, str(e)[:120])
+            out[nm] = o
+        return out
+    except Exception as e:  # noqa: BLE001
+        return {"error": "%s: %s" % (type(e).__name__, str(e)[:200])}
+    finally:
+        shutil.rmtree(base, ignore_errors=True)
+
+
+def gen_consumer(rng):
+    lo = float(rng.randint(-8, -1))
+    hi = float(rng.randint(2, 12))
+    nominal = float(rng.choice([1, 2, 10, 0.5]))
+    names, signs, aliases = ["x"], {"x": 1}, []
+    for i in range(rng.randint(1, 3)):
+        target = rng.choice(names)
+        sign = rng.choice([1, -1, -1])
+        nm = "%s_%d" % ("neg" if sign < 0 else "same", i)
+        aliases.append([nm, [target, sign]])
+        names.append(nm)
+        signs[nm] = signs[target] * sign
+    tmin, tmax = {}, {}
+    for nm in names:
+        a, b = (lo, hi) if signs[nm] > 0 else (-hi, -lo)
+        tmin[nm] = a + (b - a) * 0.25
+        tmax[nm] = a + (b - a) * 0.75
+    return {"lo": lo, "hi": hi, "nominal": nominal, "aliases": aliases, "signs": signs, "tmin": tmin, "tmax": tmax}
+
+
+def run_consumers(ctx):
+    from concurrent.futures import ProcessPoolExecutor
+    specs = [gen_consumer(ctx.rng) for _ in range(ctx.n(10, 300))]
+    with ProcessPoolExecutor(max_workers=10) as ex:
+        results = list(ex.map(consumer_case, specs))
+    for spec, res in zip(specs, results):
+        ctx.case_done(core.fingerprint(["consumer", [a[1][1] for a in spec["aliases"]], sorted(spec["signs"].values())]), True)
+        ctx.count("consumer_models")
+        if "error" in res:
+            ctx.violation("consumer/exception", {"spec": spec, "error": res["error"]}, no_input=True, what="alias model could not be loaded: %s" % res["error"][:100])
+            continue
+        for nm, o in res.items():
+            sg = spec["signs"][nm]
+            exp_range = [spec["lo"], spec["hi"]] if sg > 0 else [-spec["hi"], -spec["lo"]]
+            rep = {"spec": spec, "name": nm, "sign": sg, "observed": o, "expected_range": exp_range}
+            if "error" in o or "error2" in o:
+                ctx.violation("consumer/goal-rejected", rep, what="a StateGoal / accessor through alias %s (sign %+d) failed: %s" % (nm, sg, o.get("error", o.get("error2"))))
+                continue
+            if o["range"] != exp_range or o["bounds"] != exp_range:
+                ctx.violation("consumer/range", rep, what="through alias %s (sign %+d) the bounds are %s / goal range %s, expected %s" % (nm, sg, o["bounds"], o["range"], exp_range))
+            if o["nominal"] != spec["nominal"] or o["var_nominal"] != spec["nominal"]:
+                ctx.violation("consumer/nominal", rep, what="through alias %s the nominal is %s / %s, expected the positive %s" % (nm, o["var_nominal"], o["nominal"], spec["nominal"]))
+            if o["at_one"] != float(sg) or o["key"] != ("x" if sg > 0 else "-x") or o["discrete"]:
+                ctx.violation("consumer/function", rep, what="goal on alias %s: f(x=1) = %s, key %s (sign %+d)" % (nm, o["at_one"], o["key"], sg))
+
+
+_run_core = run
+
+
+def run(ctx):  # noqa: F811
+    _run_core(ctx)
+    if not os.environ.get("VERIF_REPLAY"):
+        run_consumers(ctx)
